@@ -201,6 +201,15 @@ ADDENDA4 = {
     'C17': ' Also: no wait on the data queue while the token lock is held (C17-9).',
     'C20': ' Also: nothing that can log runs in the child after the forwarding handler was removed (C20-7).',
 }
+# rules added in round r7 (DESIGN.md 11.3)
+ADDENDA5 = {
+    'C07': ' Also: the clean-up of async_fifo_stream swallows CancelledError and Exception of every cancelled task (C07-9).',
+    'C09': ' Also: the batch size is stored as given, None alone is replaced — finite-domain evaluation of the constructor (C09-12).',
+    'C11': ' Also (C11-2): the join of the worker whose __init__ failed is untimed.',
+    'C14': ' Also: a cache of generated proxy types is keyed by the exposed methods too (C14-15).',
+    'C18': ' Also: the responding task leaves its loop only from the handler of the idle request queue (C18-15); the response clock starts after the enqueue call (C18-16).',
+    'C20': ' Also (C20-3): the daemon flag of the log-reader thread evaluates to False for a process that is not a daemon.',
+}
 COMMON_NOTE = COMMON_NOTE + (
     ' Before the rules run, the syntax tree (never the files) is normalised: while/next loops are read as for loops, functions the rules look up by name that were renamed consistently are mapped back through body fingerprints (anchors.json), '
     'calls of helpers that do not exist in the confirmed tree are read in place when that is exact, assignment expressions are desugared, annotated assignments, import aliases and written-out increments are read as their plain forms, locals / temporaries / module constants that the confirmed tree does not have are read as what they stand for, and locals, private attributes and classes that were renamed consistently are read under their recorded names; every name mapping is printed and recorded in the evidence notes.'
@@ -223,6 +232,8 @@ def main():
                 text = text + ADDENDA3[pid]
             if pid in ADDENDA4:
                 text = text + ADDENDA4[pid]
+            if pid in ADDENDA5:
+                text = text + ADDENDA5[pid]
             checks.append(
                 {
                     'property_id': pid,
